@@ -166,6 +166,11 @@ def c05():
              dtypes={0: [F32]}, tol=1e-9, tol_dtype=2e-3, skip=("readonly",)),
         dict(key="destripe:car", make=lambda s: ([x(2), 30000], dict(h=h, channel_labels=np.zeros(384, dtype=int), k_filter=False)), fn=lambda a, fs, **k: voltage.destripe(a, fs, **k),
              args=(0,), dtypes={0: [F32]}, tol=1e-9, tol_dtype=2e-3, skip=("readonly",)),
+        # raw integer counts (what a memory map of the file or a read without conversion gives): same result as the same values as float64
+        dict(key="destripe:counts", make=lambda s: ([np.round(x(9) / np.max(np.abs(x(9))) * 3000.0), 30000], dict(h=h, channel_labels=np.zeros(384, dtype=int))),
+             fn=lambda a, fs, **k: voltage.destripe(a, fs, **k), args=(0,), dtypes={0: [I16, I32]}, tol=1e-9, tol_dtype=1e-6, skip=("readonly", "fortran", "strided", "negative-strides", "offset-view")),
+        dict(key="destripe:car:counts", make=lambda s: ([np.round(x(10) / np.max(np.abs(x(10))) * 3000.0), 30000], dict(h=h, channel_labels=np.zeros(384, dtype=int), k_filter=False)),
+             fn=lambda a, fs, **k: voltage.destripe(a, fs, **k), args=(0,), dtypes={0: [I16, I32]}, tol=1e-9, tol_dtype=1e-6, skip=("readonly", "fortran", "strided", "negative-strides", "offset-view")),
         dict(key="destripe_lfp", make=lambda s: ([x(3), 2500], dict(h=h, channel_labels=np.zeros(384, dtype=int))), fn=lambda a, fs, **k: voltage.destripe_lfp(a, fs, **k), args=(0,),
              tol=1e-9, skip=("readonly",)),
         dict(key="car:median", make=lambda s: ([small(4)], dict(collection=coll)), fn=lambda a, **k: voltage.car(a, **k), args=(0,), dtypes={0: [F32]}, tol_dtype=1e-5),
